@@ -1032,7 +1032,7 @@ impl Engine for C11 {
             property: "C11",
             engine: "codec",
             level: "fault_enumeration",
-            rule: "case kinds: (30%) round trip of a generated valid machine - all action/distribution/counter variants, 1..60000 states, incompressible parameters so that the compressed payload crosses 32 KiB and 256 KiB and the encoding approaches 1 MiB, extreme numeric fields - with string identity, name identity and a behavioural comparison (original vs re-parsed machine driven by the same fault-injected closed-loop history, 'restart from strings'); (45%) one fault from the catalogue applied to a valid encoding: truncation, single/multi bit flip, byte substitution, chunk deletion/duplication, splice of two encodings, wrong version, non-ASCII/multi-byte characters also straddling the version prefix, corruption below the compression layer (payload mutated then re-compressed), random bytes, random base64; (12%) legacy v1 parser on harness-encoded well-formed / malformed-field / byte-faulted hex strings; (6%) exhaustive sweep of EVERY truncation point and EVERY single-bit flip of a small encoding (<= 400 chars); (4%) exhaustive sweep of every truncation point of the PAYLOAD below the compression layer (cut, then re-compressed) for the current format and for the legacy v1 format; (3%) zlib bombs decompressing to 2 MiB..256 MiB (thorough: ..1 GiB) with peak memory measured by a counting global allocator. Oracle: Err or a machine that validates, never a panic/abort; peak live bytes <= 192 MiB + 4*len(input). Exhaustive only inside each sweep case; distinct = hash of the input string / machine; non-trivial = every case (each feeds the parser)".into(),
+            rule: "case kinds: (30%) round trip of a generated valid machine - all action/distribution/counter variants, 1..60000 states, incompressible parameters so that the compressed payload crosses 32 KiB and 256 KiB and the encoding approaches 1 MiB, extreme numeric fields - with string identity, name identity and a behavioural comparison (original vs re-parsed machine driven by the same fault-injected closed-loop history, 'restart from strings'); (45%) one fault from the catalogue applied to a valid encoding: truncation, single/multi bit flip, byte substitution, chunk deletion/duplication, splice of two encodings, wrong version, non-ASCII/multi-byte characters also straddling the version prefix, corruption below the compression layer (payload mutated then re-compressed), random bytes, random base64, strings of 0..6 blanks / line ends / version digits / base64 symbols (below and at the parser's own length guards), a valid encoding framed by blanks or line ends; (12%) legacy v1 parser on harness-encoded well-formed / malformed-field / byte-faulted hex strings; (6%) exhaustive sweep of EVERY truncation point and EVERY single-bit flip of a small encoding (<= 400 chars); (4%) exhaustive sweep of every truncation point of the PAYLOAD below the compression layer (cut, then re-compressed) for the current format and for the legacy v1 format; (3%) zlib bombs decompressing to 2 MiB..256 MiB (thorough: ..1 GiB) with peak memory measured by a counting global allocator. Oracle: Err or a machine that validates, never a panic/abort; peak live bytes <= 192 MiB + 4*len(input). Exhaustive only inside each sweep case; distinct = hash of the input string / machine; non-trivial = every case (each feeds the parser)".into(),
             assumptions: vec![
                 "honest scoping: the round trip is the no-fault baseline of the channel (input generation); truncation/bit-flip sweeps and payload corruption are the stored-artefact faults".into(),
                 "memory constant 192 MiB covers the 1 MiB buffer plus the largest in-memory machine a 1 MiB payload can describe (about 65500 states x 576 B, doubled for Vec growth)".into(),
